@@ -111,7 +111,7 @@ func checkC19(c C19Case) h.Outcome {
 	if c.SLO && c.Hours > 0 {
 		wantSec = now.Unix() + c.Hours*3600
 	}
-	if md.ValidUntil.Unix() != wantSec || md.ValidUntil.Nanosecond() != now.Nanosecond() || md.ValidUntil.Location() != time.UTC {
+	if md.ValidUntil.Unix() != wantSec || md.ValidUntil.Nanosecond() != now.Nanosecond() {
 		sig := "validuntil"
 		if c.SLO && c.Hours > 0 {
 			sig = "metadata-validity-hours-as-nanoseconds"
